@@ -842,7 +842,8 @@ func c19runRedirect(r *vrun.Run, script []c19rep, max int, api string) bool {
 		want = append(want, xs{c19raddr[dest], asking})
 	}
 
-	var gotRes, gotC string
+	var gotRes, gotC, gotF string
+	kF := "{" + kA + "}2" // same slot as kA
 	good := true
 	p, site := vrun.Catch(func() {
 		opt := &ClientOption{InitAddress: []string{c19raddr[0]}}
@@ -881,6 +882,8 @@ func c19runRedirect(r *vrun.Run, script []c19rep, max int, api string) bool {
 			rs := cl.DoMultiCache(ctx, CT(cl.B().Get().Key(kA).Cache(), time.Minute), CT(cl.B().Get().Key(kC).Cache(), time.Minute))
 			gotRes, gotC = show(rs[0]), show(rs[1])
 		}
+		// a later command for the same slot (another key), before any topology refresh has run
+		gotF = show(cl.Do(ctx, cl.B().Get().Key(kF).Build()))
 	})
 	if p != nil {
 		r.Violate("redirect: panic in "+site, fmt.Sprintf("panic %v; %s", p, c19json(rc)), rc)
@@ -943,6 +946,24 @@ func c19runRedirect(r *vrun.Run, script []c19rep, max int, api string) bool {
 				return false
 			}
 		}
+	}
+	// the later command: its first hop is the slot's owner as far as the client can know it, i.e. the owner of the learnt
+	// topology or a node that a MOVED reply named for this slot; an ASK never transfers the slot, and no ASKING is sent
+	allowed := map[string]bool{c19raddr[0]: true}
+	for i, s := range script {
+		if s.Kind != "K" && i < len(want) {
+			allowed[c19raddr[s.Node]] = true
+		}
+	}
+	var hops []xs
+	for _, l := range log {
+		if len(l.Argv) > 1 && l.Argv[1] == kF {
+			hops = append(hops, xs{l.Addr, l.Asking})
+		}
+	}
+	if len(hops) == 0 || !allowed[hops[0].addr] || hops[0].asking {
+		r.Violate("redirect: a later command for the same slot was first sent to a node that no MOVED reply or topology named as the owner ("+c19apiClass(api)+")", desc()+fmt.Sprintf("; later GET %s went to %v (result %q)", kF, hops, gotF), rc)
+		return false
 	}
 	if done {
 		r.Outcome("redirect: limit reached, redirect error returned")
